@@ -171,7 +171,7 @@ func (sc *DecArshal) Run(t *core.Tape, env *Env) (any, []core.Violation) {
 	report := func(prop, class, site, f string, a ...any) bool {
 		v := core.Violationf(prop, class, site, f, a...)
 		viols = append(viols, v)
-		return !env.Known[v.Key()]
+		return v.Property == env.Prop && !env.Known[v.Key()]
 	}
 	in := p.Input
 	opts := arshalOpts(p.AllowUTF8, p.AllowDup)
